@@ -277,7 +277,7 @@ func derivesFromParamValue(cons ssa.Value, lookup ssa.Value, at *ssa.BasicBlock)
 // c07Stateful: a Check* method that stores to its receiver needs a pointer
 // receiver, and the type must be registered by pointer.
 func c07Stateful(ctx *core.Ctx, r *core.Report, regs map[*types.Named]types.Type) {
-	n := 0
+	n, nCount := 0, 0
 	for named, regType := range regs {
 		for i := 0; i < named.NumMethods(); i++ {
 			m := named.Method(i)
@@ -315,6 +315,14 @@ func c07Stateful(ctx *core.Ctx, r *core.Report, regs map[*types.Named]types.Type
 				}
 			})
 			key := "node." + named.Obj().Name() + "." + m.Name()
+			if counts := incrementsReceiver(f, recv); counts {
+				// a limit on what is returned counts what is returned: a
+				// pre-constraint runs for every node the schema allows, before
+				// the data node is asked whether it has one and before later filters
+				r.Ob("counter-counts-selected", key, ctx.Pos(f.Pos()), !strings.Contains(m.Name(), "PreConstraints"),
+					"the counting constraint counts in a pre-constraint: containers that do not exist in the data, and containers a later filter rejects, use up the limit")
+				nCount++
+			}
 			if !writes {
 				r.Ob("stateful-by-pointer", key, ctx.Pos(f.Pos()), true, "keeps no state")
 				continue
@@ -326,6 +334,100 @@ func c07Stateful(ctx *core.Ctx, r *core.Report, regs map[*types.Named]types.Type
 		}
 	}
 	r.Floor("stateful-by-pointer", n, 12)
+	r.Floor("counter-counts-selected", nCount, 1)
+	c07CounterRunsLast(ctx, r)
+}
+
+// incrementsReceiver: the method stores field+const back into the same field of its receiver.
+func incrementsReceiver(f *ssa.Function, recv *ssa.Parameter) bool {
+	found := false
+	core.Instrs(f, func(_ *ssa.BasicBlock, in ssa.Instruction) {
+		st, ok := in.(*ssa.Store)
+		if !ok {
+			return
+		}
+		fa, ok := st.Addr.(*ssa.FieldAddr)
+		if !ok || !core.IsParam(fa.X, recv) {
+			return
+		}
+		b, ok := st.Val.(*ssa.BinOp)
+		if !ok || b.Op != token.ADD {
+			return
+		}
+		if _, isConst := b.Y.(*ssa.Const); !isConst {
+			return
+		}
+		if u, ok := b.X.(*ssa.UnOp); ok {
+			if fa2, ok := u.X.(*ssa.FieldAddr); ok && fa2.Field == fa.Field && core.IsParam(fa2.X, recv) {
+				found = true
+			}
+		}
+	})
+	return found
+}
+
+// c07CounterRunsLast: among the constraints registered in package node that
+// act after a container was selected (ContainerPostConstraint), the counting
+// one has the highest priority number, i.e. runs after every filter.
+func c07CounterRunsLast(ctx *core.Ctx, r *core.Report) {
+	add := ctx.Method("node", "Constraints", "AddConstraint")
+	post := ctx.Named("node", "ContainerPostConstraint")
+	if add == nil || post == nil {
+		r.Fatalf("anchors node.Constraints.AddConstraint / node.ContainerPostConstraint not found")
+		return
+	}
+	iface := post.Underlying().(*types.Interface)
+	type reg struct {
+		name string
+		prio int64
+		pos  string
+		cnt  bool
+	}
+	var regs []reg
+	for _, f := range ctx.RepoFuncs() {
+		if core.FnPkgPath(f) != core.Full("node") {
+			continue
+		}
+		for _, c := range callsStatic(f, add, true) {
+			a := c.Common().Args // recv, id, weight, priority, constraint
+			mi, ok := a[len(a)-1].(*ssa.MakeInterface)
+			if !ok || !types.Implements(mi.X.Type(), iface) {
+				continue
+			}
+			prio, ok := core.ConstInt(a[3])
+			if !ok {
+				r.Ob("counter-runs-last", core.FnName(f)+"/"+core.TypeName(mi.X.Type()), ctx.Pos(c.Pos()), false, "priority is not a constant: the order of the post-constraints cannot be decided")
+				continue
+			}
+			named := core.NamedOf(mi.X.Type())
+			cnt := false
+			if named != nil {
+				for i := 0; i < named.NumMethods(); i++ {
+					if m := named.Method(i); m.Name() == "CheckContainerPostConstraints" {
+						if mf := ctx.Prog.FuncValue(m); mf != nil && len(mf.Params) > 0 && incrementsReceiver(mf, mf.Params[0]) {
+							cnt = true
+						}
+					}
+				}
+			}
+			regs = append(regs, reg{core.TypeName(mi.X.Type()), prio, ctx.Pos(c.Pos()), cnt})
+		}
+	}
+	n := 0
+	for _, c := range regs {
+		if !c.cnt {
+			continue
+		}
+		for _, o := range regs {
+			if o.cnt {
+				continue
+			}
+			n++
+			r.Ob("counter-runs-last", c.name+" after "+o.name, c.pos, c.prio > o.prio,
+				fmt.Sprintf("the counting constraint (priority %d) does not run after %s (priority %d, registered at %s): containers that constraint rejects are counted", c.prio, o.name, o.prio, o.pos))
+		}
+	}
+	r.Floor("counter-runs-last", n, 1)
 }
 
 // c07NavigationExempt: parameter constraints let navigation through.
